@@ -47,7 +47,7 @@ pub use crate::internal::messages::common::TaskFailInfo;
 pub use crate::internal::messages::worker as messages;
 pub use crate::internal::worker::resources::concise::verif::ConciseSnap;
 pub use crate::internal::worker::resources::groups_verif::{
-    group_solver_memo_stats, set_group_solver_memo,
+    GroupSolverMemoStats, group_solver_memo_stats, set_group_solver_memo,
 };
 pub use crate::internal::worker::resources::pool::verif::PoolSnap;
 pub use crate::internal::worker::resources::verif::{
